@@ -418,6 +418,35 @@ func (ck *Check) storeCensus(rule string) {
 				case *ssa.FreeVar:
 					// closures writing captured locals of their parent (checkThat-style): local
 				}
+				// … nor into an object all groups share that a group's own object points to: the cloud
+				// provider behind every cloud node group (n.provider.<field>)
+				if okv {
+					for v, steps := addr, 0; steps < 50; steps++ {
+						var base ssa.Value
+						switch x := v.(type) {
+						case *ssa.FieldAddr:
+							base = x.X
+						case *ssa.IndexAddr:
+							base = x.X
+						case *ssa.UnOp:
+							if x.Op == token.MUL {
+								base = x.X
+							}
+						}
+						if base == nil {
+							break
+						}
+						if fa, isFA := v.(*ssa.FieldAddr); isFA && a.IfaceCloudProvider != nil {
+							if pt, isPtr := fa.X.Type().Underlying().(*types.Pointer); isPtr {
+								if types.Implements(fa.X.Type(), a.IfaceCloudProvider.Underlying().(*types.Interface)) {
+									okv = false
+									why = "store into the cloud provider object shared by all groups (" + typeName(pt.Elem()) + "." + fieldOfAddr(fa).Name() + ")"
+								}
+							}
+						}
+						v = base
+					}
+				}
 				if !okv {
 					bad++
 					ck.fail(rule, fmt.Sprintf("%s/%s", funcID(fn), ck.P.siteKeyInstr(in)), ck.P.instrPos(in), funcID(fn), "code reachable from the scan body stores only into locals, the scanned group's state / options / provider object, or freshly fetched objects", how, why)
@@ -507,7 +536,7 @@ func (ck *Check) loopContainment(rule string) {
 	scanT := ctx.Term(cs[0].(*ssa.Call))
 	scanErr := &Term{Kind: "extract", Name: "1", Args: []*Term{scanT}}
 	for _, e := range loop.Exits {
-		if e[0] == loop.Header {
+		if loop.exhaustionExit(e[0]) {
 			continue
 		}
 		key := fmt.Sprintf("%s/loop-exit@block%d", funcID(fn), e[0].Index)
